@@ -21,8 +21,9 @@ RULE = ('random rank 1-3 float64/complex128 tensors (sizes 1-4) of dyadic ration
         'prox_convex_conj} x dim subsets with mixed-sign encodings x divide_by_n x keepdim x weight in {default, python scalar, '
         'int, complex scalar, real tensor, complex tensor} broadcastable to x x target likewise x sigma in {python scalar, 0-dim '
         'tensor, broadcastable tensor} with entries 0, 2^-30 (< 1e-8: triggers the fallback tweak) and dyadic values; scaled '
-        'functionals nested 1-2 deep (python float/int and tensor scale); separable sums of 2-3 functionals; a malformed stream '
-        '(negative sigma / scale). Non-trivial = at least one element is actually thresholded/shrunk or reduced (numel > 1 and '
+        'functionals nested 1-2 deep (python float/int and tensor scale); separable sums of 2-3 functionals; float64 tensor sigmas '
+        'bracketing the 1e-8 switch (2^-27, 2^-26) for the fallback; one fixed reproduction of KF-C08-1; an implementation-only '
+        'family with irrational complex moduli (oracles, no model); a malformed stream (negative sigma / scale). Non-trivial = at least one element is actually thresholded/shrunk or reduced (numel > 1 and '
         'a non-zero sigma or a forward reduction); distinct by case hash.')
 TRUSTED_BASE = ['numpy reference formulas of the oracle (independent of the model)',
                 'coherence Q twin <-> real model proved for the real primitives (soft-threshold, L1/L2 value/prox/conj prox) and for '
@@ -109,6 +110,8 @@ def gen_sigma(rng, shape, scalar_only=False, positive=False):
             return 0.0
         if r < 0.27:
             return TINY
+        if r < 0.33:
+            return rng.choice([2.0 ** -20, 2.0 ** -12])   # small but above the 1e-8 switch of the fallback
         return rng.choice([1 / 16, 0.125, 0.25, 0.5, 0.75, 1.0, 1.5, 2.0, 3.0, 8.0])
     r = rng.random()
     if r < 0.4:
@@ -144,13 +147,13 @@ def sig_arr(sg, shape):
     return np.broadcast_to(np.array(sg['vals'], dtype=np.float64).reshape(sg['shape']), shape)
 
 
-def gen_elem(rng, shape, op, sigma, cls=None, x_complex=None, allow_quirk=True):
+def gen_elem(rng, shape, op, sigma, cls=None, x_complex=None, allow_quirk=True, exact_modulus=True):
     """one elementary functional + its input x; returns (elem spec, x spec)"""
     cls = cls or rng.choice(CLASSES)
     kind = KIND[cls]
     nd = len(shape)
-    need_pyth = kind == 'KL1'
-    w = gen_operand(rng, shape, 'w', True, True, nonzero=(kind == 'KL2' and op == 'pcc'))
+    need_pyth = kind == 'KL1' and exact_modulus
+    w = gen_operand(rng, shape, 'w', True, exact_modulus, nonzero=(kind == 'KL2' and op == 'pcc'))
     b = gen_operand(rng, shape, 'b', True, False)
     if x_complex is None:
         x_complex = rng.random() < 0.4
@@ -230,6 +233,21 @@ def gen_elementary(rng, tier):
         sigma = gen_sigma(rng, shape)
         e, x = gen_elem(rng, shape, op, sigma, cls=CLASSES[(i // 3) % len(CLASSES)])
         cases.append({'op': op, 'funcs': [{'scales': [], 'elem': e}], 'xs': [x], 'sigma': sigma, 'sep': False})
+    # the `sigma < 1e-8 -> sigma + 1e-6` switch of the generic fallback: float64 tensor sigmas bracketing 1e-8 (2^-27 < 1e-8 < 2^-26)
+    for i in range(12 if tier == 'quick' else 200):
+        shape = gen_shape(rng)
+        sh = sub_shape(rng, shape)
+        sigma = {'kind': 't', 'shape': sh,
+                 'vals': [rng.choice([0.0, TINY, 2.0 ** -27, 2.0 ** -26, 2.0 ** -20, 2.0 ** -12, 1 / 16]) for _ in range(numel(sh))]}
+        sigma['vals'][0] = 2.0 ** -26 if i % 2 else 2.0 ** -27
+        if len(sigma['vals']) > 1:
+            sigma['vals'][1] = 2.0 ** -27 if i % 2 else 2.0 ** -26
+        e, x = gen_elem(rng, shape, 'pcc', sigma, cls='L1NormViewAsReal')
+        if e['w']['kind'] != 't':
+            e['w'] = {'kind': 't', 'shape': [], 're': [dy(rng, 1, 12)], 'im': None}
+        if e['b']['kind'] == 'none' or all(v == 0 for v in e['b']['re']):
+            e['b'] = {'kind': 't', 'shape': [], 're': [dy(rng, 4, 24)], 'im': None}   # the switch is only visible with a non-zero target
+        cases.append({'op': 'pcc', 'funcs': [{'scales': [], 'elem': e}], 'xs': [x], 'sigma': sigma, 'sep': False})
     # malformed stream: negative sigma somewhere -> ValueError
     for i in range(10 if tier == 'quick' else 120):
         op = ['prox', 'pcc'][i % 2]
@@ -239,6 +257,20 @@ def gen_elementary(rng, tier):
         sigma['vals'][k] = -rng.choice([0.5, 1.0, TINY])
         e, x = gen_elem(rng, shape, op, {'kind': 'py', 'shape': [], 'vals': [1.0]})
         cases.append({'op': op, 'funcs': [{'scales': [], 'elem': e}], 'xs': [x], 'sigma': sigma, 'sep': False, 'malformed': True})
+    return [_stat(c) for c in cases]
+
+
+def gen_generic_complex(rng, tier):
+    """implementation-level only: complex data / weights with irrational moduli (the rational model needs exact square roots)"""
+    cases = []
+    for i in range(40 if tier == 'quick' else 800):
+        op = ['forward', 'prox', 'pcc'][i % 3]
+        shape = gen_shape(rng)
+        sigma = gen_sigma(rng, shape)
+        e, x = gen_elem(rng, shape, op, sigma, cls=rng.choice(['L1Norm', 'L1Norm', 'L1NormViewAsReal', 'L2NormSquared']),
+                        x_complex=True, allow_quirk=False, exact_modulus=False)
+        scales = [gen_scale(rng, True)] if rng.random() < 0.3 else []
+        cases.append({'op': op, 'funcs': [{'scales': scales, 'elem': e}], 'xs': [x], 'sigma': sigma, 'sep': False})
     return [_stat(c) for c in cases]
 
 
@@ -696,6 +728,8 @@ def nontrivial(c):
 FAMILIES = [
     Family('elementary', gen_elementary, impl, coq, PREAMBLE, compare, oracle, nontrivial=nontrivial, descr=descr, shard=40,
            theorem='C08_prox_opt_*, C08_moreau_*, C08_values*, C08_transfer_*'),
+    Family('complex_irrational_modulus', gen_generic_complex, impl, None, '', None, oracle, nontrivial=nontrivial, descr=descr,
+           theorem='C08_prox_opt_l1complex, C08_moreau_l1complex (implementation-level oracles only)'),
     Family('scaled', gen_scaled, impl, coq, PREAMBLE, compare, oracle, nontrivial=nontrivial, descr=descr, shard=40,
            theorem='C08_scaled_prox_opt*, C08_scaled_moreau*'),
     Family('separable_sum', gen_separable, impl, coq, PREAMBLE, compare, oracle, nontrivial=nontrivial, descr=descr, shard=30,
